@@ -111,6 +111,44 @@ theorem entryMerge_assoc (f : V → V → V) (hf : ∀ a b c, f (f a b) c = f a 
 
 end kmap
 
+/-! ### top hits -/
+
+section hits
+variable {desc : Bool} {k : Nat}
+
+theorem Hits.merge_comm (a b : Hits desc k) : Hits.merge a b = Hits.merge b a := by
+  apply Hits.ext'
+  show (isort (hitLe desc) (a.list ++ b.list)).take k = (isort (hitLe desc) (b.list ++ a.list)).take k
+  rw [isort_eq_of_perm (hitLe desc) (hitLe_total desc) (hitLe_trans desc) (hitLe_antisymm desc)
+    (List.perm_append_comm (l₁ := a.list) (l₂ := b.list))]
+
+theorem Hits.merge_assoc (a b c : Hits desc k) :
+    Hits.merge (Hits.merge a b) c = Hits.merge a (Hits.merge b c) := by
+  apply Hits.ext'
+  show (isort (hitLe desc) ((isort (hitLe desc) (a.list ++ b.list)).take k ++ c.list)).take k
+    = (isort (hitLe desc) (a.list ++ (isort (hitLe desc) (b.list ++ c.list)).take k)).take k
+  rw [topk_topk_append (hitLe desc) (hitLe_total desc) (hitLe_trans desc) (hitLe_antisymm desc),
+    topk_append_topk (hitLe desc) (hitLe_total desc) (hitLe_trans desc) (hitLe_antisymm desc),
+    List.append_assoc]
+
+theorem Hits.empty_merge (a : Hits desc k) : Hits.merge Hits.empty a = a := by
+  apply Hits.ext'
+  show (isort (hitLe desc) ([] ++ a.list)).take k = a.list
+  rw [List.nil_append,
+    isort_of_sorted (hitLe desc) (hitLe_total desc) (hitLe_trans desc) (hitLe_antisymm desc) a.sorted,
+    List.take_of_length_le a.short]
+
+/-- the best `k` of a concatenation from the best `k` of the parts -/
+theorem Hits.ofList_append (x y : List HitE) :
+    (Hits.ofList (x ++ y) : Hits desc k) = Hits.merge (Hits.ofList x) (Hits.ofList y) := by
+  apply Hits.ext'
+  show (isort (hitLe desc) (x ++ y)).take k
+    = (isort (hitLe desc) ((isort (hitLe desc) x).take k ++ (isort (hitLe desc) y).take k)).take k
+  rw [topk_topk_append (hitLe desc) (hitLe_total desc) (hitLe_trans desc) (hitLe_antisymm desc),
+    topk_append_topk (hitLe desc) (hitLe_total desc) (hitLe_trans desc) (hitLe_antisymm desc)]
+
+end hits
+
 /-! ### whole trees -/
 
 section tree
@@ -131,6 +169,8 @@ theorem merge_comm : ∀ (r : Req) (x y : Inter M r), merge r x y = merge r y x
   | .filter _ _ sub, x, y => by
     show (x.1 + y.1, merge sub x.2 y.2) = (y.1 + x.1, merge sub y.2 x.2)
     rw [merge_comm sub, Nat.add_comm]
+  | .topHits _ _ _ _, x, y => Hits.merge_comm x y
+  | .composite _ _ _ sub, x, y => KMap.merge_comm _ (entryMerge_comm _ (merge_comm sub)) x y
 
 theorem merge_assoc : ∀ (r : Req) (x y z : Inter M r),
     merge r (merge r x y) z = merge r x (merge r y z)
@@ -152,6 +192,8 @@ theorem merge_assoc : ∀ (r : Req) (x y z : Inter M r),
     show ((x.1 + y.1) + z.1, merge sub (merge sub x.2 y.2) z.2)
       = (x.1 + (y.1 + z.1), merge sub x.2 (merge sub y.2 z.2))
     rw [merge_assoc sub, Nat.add_assoc]
+  | .topHits _ _ _ _, x, y, z => Hits.merge_assoc x y z
+  | .composite _ _ _ sub, x, y, z => KMap.merge_assoc _ (entryMerge_assoc _ (merge_assoc sub)) x y z
 
 theorem empty_merge : ∀ (r : Req) (x : Inter M r), merge r (empty r) x = x
   | .none, _ => rfl
@@ -168,6 +210,8 @@ theorem empty_merge : ∀ (r : Req) (x : Inter M r), merge r (empty r) x = x
   | .filter _ _ sub, x => by
     show (0 + x.1, merge sub (empty sub) x.2) = x
     rw [empty_merge sub, Nat.zero_add]
+  | .topHits _ _ _ _, x => Hits.empty_merge x
+  | .composite _ _ _ _, x => KMap.empty_merge _ x
 
 theorem merge_empty (r : Req) (x : Inter M r) : merge r x (empty r) = x := by
   rw [merge_comm, empty_merge]
